@@ -224,6 +224,40 @@ Definition spec_upsert_u (t : table) (now : Z) (ru : rule) (tgt : bool) (v : rec
       else spec_upsert t now ru v o
   end.
 
+(* Create(&slice) with an OnConflict rule: every element on its own — a keyed element whose key is stored
+   is treated as the rule defines (against the row stored BEFORE the call; keys are distinct), any other
+   element is inserted (zero-key elements get fresh keys, in order); no other row changes; RowsAffected
+   counts the rows inserted or updated. *)
+Fixpoint applies (ru : rule) (old : rec) : bool :=      (* does the rule update a colliding row? *)
+  match ru with
+  | RNothing => false
+  | RUpdates _ | RAll => true
+  | RWhere k r => (r_age old <? k) && applies r old
+  | RTarget _ r => applies r old
+  end.
+(* [judge_ra] = false for DO NOTHING on a RETURNING dialect, where gorm's read-back bookkeeping also counts
+   the elements it skips (RowsAffected is then not the number of rows written) *)
+Definition spec_oc_slice (t : table) (now : Z) (ru : rule) (vs : list rec) (judge_ra : bool) (o : obs) : bool :=
+  let keyed := filter (fun v => negb (r_id v =? 0)) vs in
+  let zero := filter (fun v => r_id v =? 0) vs in
+  let kids := map r_id keyed in
+  let news := filter (fun r => negb (has_key t (r_id r)) && negb (existsb (Z.eqb (r_id r)) kids)) (o_tbl o) in
+  negb (o_err o)
+  && forallb (fun v =>
+       let ex := fill_times now v in
+       match lookup t (r_id v), lookup (o_tbl o) (r_id v) with
+       | None, Some row => same_on (data_cols ++ [CCat; CUat]) row ex
+       | Some old, Some row => coll_ok ru v ex old row (if applies ru old then 1 else 0)
+       | _, None => false
+       end) keyed
+  && all2b (fun v row => same_on (data_cols ++ [CCat; CUat]) row (fill_times now v) && (0 <? r_id row)) zero news
+  && tbl_eqb (without_all (kids ++ map r_id news) t) (without_all (kids ++ map r_id news) (o_tbl o))
+  && (negb judge_ra ||
+      (o_ra o =? Z.of_nat (length (filter (fun v => match lookup t (r_id v) with
+                                                    | Some old => negb (r_id v =? 0) && applies ru old
+                                                    | None => true
+                                                    end) vs)))).
+
 Definition spec_step (t : table) (now : Z) (ch : list cel) (f : fin) (o : obs) : bool :=
   match f with
   | FSave v => spec_save t v o
@@ -233,11 +267,14 @@ Definition spec_step (t : table) (now : Z) (ch : list cel) (f : fin) (o : obs) :
   | FSaveSlice _ => false       (* needs the slice handed back: see spec_case *)
   | FSaveOmit os v => spec_save_omit t os v o
   | FCreateU ru tgt v => spec_upsert_u t now ru tgt v o
+  | FCreateOCSlice ru _ vs => spec_oc_slice t now ru vs true o
   end.
 
 (* [rets] = the caller's slice after the call (Save of a slice), [] otherwise *)
-Definition spec_case (t : table) (now : Z) (ch : list cel) (f : fin) (rets : list rec) (o : obs) : bool :=
+Definition spec_case (t : table) (now : Z) (ch : list cel) (f : fin) (rets : list rec) (judge_ra : bool)
+           (o : obs) : bool :=
   match f with
+  | FCreateOCSlice ru _ vs => spec_oc_slice t now ru vs judge_ra o
   | FSaveSlice vs => spec_slice t vs rets o
   | _ => spec_step t now ch f o
   end.
@@ -287,7 +324,7 @@ Definition in_domain (ch : list cel) (f : fin) : bool :=
       kv_alone (ch_attrs ch) && kv_alone (ch_assigns ch)
       && conds_typed (ch_conds ch ++ ic) && args_typed (ch_attrs ch) && args_typed (ch_assigns ch)
       && conds_dom (ch_conds ch ++ ic) && args_data (ch_attrs ch) && args_data (ch_assigns ch)
-  | FSaveSlice _ | FSaveOmit _ _ | FCreateU _ _ _ => false   (* not covered by model_meets_spec; own domains below *)
+  | FSaveSlice _ | FSaveOmit _ _ | FCreateU _ _ _ | FCreateOCSlice _ _ _ => false   (* not covered by model_meets_spec; own domains below *)
   end.
 (* Save of a slice: the non-zero keys are distinct *)
 Definition slice_dom (f : fin) : bool :=
@@ -295,6 +332,7 @@ Definition slice_dom (f : fin) : bool :=
   | FSaveSlice vs => distinctb (filter (fun k => negb (k =? 0)) (map r_id vs))
   | FSaveOmit os _ => negb (existsb (col_eqb CId) os)      (* the key is never omitted *)
   | FCreateU _ _ _ => true
+  | FCreateOCSlice _ _ vs => distinctb (filter (fun k => negb (k =? 0)) (map r_id vs))
   | _ => false
   end.
 
